@@ -12,7 +12,7 @@ RULE = (
     "exhaustive: every labelled DAG on 2..4 (quick) / 2..5 (thorough) nodes as ground truth, node labels permuted "
     "in rotation, x variants {orig, stable, parallel(n_jobs=1)} x information {callable d-separation oracle, "
     "independence_match on the full list of true singleton statements} x return types {skeleton, cpdag, dag}; "
-    "random 6-7 node DAGs via Hypothesis; PDAG.to_dag on every CPDAG (n<=4 quick, n<=5 thorough), on PDAGs made "
+    "random 6-7 node DAGs and collider-with-tail DAGs (chained compelled edges, random name order) via Hypothesis; PDAG.to_dag on every CPDAG (n<=4 quick, n<=5 thorough), on PDAGs made "
     "from a DAG by keeping a superset of its v-structure edges directed, and on all 4096 four-node PDAGs that a "
     "brute-force search finds extendable. Oracles: skeleton/v-structure signature, CPDAG = edges common to all "
     "members of the enumerated equivalence class (Meek rules beyond n=5, self-tested against the enumeration). "
@@ -194,11 +194,26 @@ def check_pc(case, out, variants=VARIANTS, infos=("callable", "independence_matc
 
 @st.composite
 def random_pc_case(draw):
+    if draw(st.integers(0, 2)) == 0:
+        # "collider with a tail": c -> b <- d and a path b - t1 - t2 - ... whose edges are compelled one after the other
+        # (each orientation enables the next), under a random assignment of names, i.e. a random processing order
+        k = draw(st.integers(2, 4))
+        names = list(draw(st.permutations(["A", "B", "C", "D", "E", "F", "G"])))[: 3 + k]
+        c, d, b, tail = names[0], names[1], names[2], names[3:]
+        edges = [[c, b], [d, b]] + [[x, y] for x, y in zip([b] + tail[:-1], tail)]
+        if draw(st.booleans()) and len(names) < 7:
+            extra = [n for n in ["A", "B", "C", "D", "E", "F", "G"] if n not in names][0]
+            names.append(extra)
+            edges.append([tail[draw(st.integers(0, k - 1))], extra])
+        nodes = list(draw(st.permutations(names)))
+        return {"nodes": nodes, "edges": edges, "variant": draw(st.sampled_from(VARIANTS)), "shape": "collider_with_tail"}
     spec = draw(gen.dag_spec(min_nodes=6, max_nodes=7, name_kinds=("str",), max_parents=3))
     return {"nodes": spec["nodes"], "edges": spec["edges"], "variant": draw(st.sampled_from(VARIANTS))}
 
 
 def check_pc_random(case, out):
+    if case.get("shape"):
+        out.cls(case["shape"])
     check_pc(case, out, variants=[case["variant"]], infos=("callable",))
 
 
